@@ -7,18 +7,28 @@ PATTERNS = {frozenset("a"): ["a", "A"], frozenset("b"): ["b", "b.*"], frozenset(
             frozenset("abc"): [".*", "[a-c]"], frozenset(): ["x", "q.*"]}
 
 
-def mk_table(t):
+# variant 2: row names that are regular expressions matching EACH OTHER (names differing only by case; a name with a metacharacter): the selector
+# that denotes {a, b} is then spelled exactly like the row name of a, and a look-up by name is made first (it changes nothing, says the specification)
+NAMES2 = {"a": "q1", "b": "Q1", "c": "q."}
+PATTERNS2 = {frozenset("a"): "(?-i:q1)", frozenset("b"): "(?-i:Q1)", frozenset("c"): "q\\.", frozenset("ab"): "q1", frozenset("ac"): "(?-i:q1)|q\\.",
+             frozenset("bc"): "(?-i:Q1)|q\\.", frozenset("abc"): "q.", frozenset(): "x"}
+
+
+def mk_table(t, names=None):
     import xdeps
     n = len(t)
+    if names:
+        t = [names[x] for x in t]
     return xdeps.Table({"name": np.array(list(t), dtype=object),
                         "v": np.array([(3 * i) % 5 for i in range(1, n + 1)], dtype=float),
                         "u": np.array([i // 2 for i in range(1, n + 1)], dtype=int)}, index="name")
 
 
-def _end(e):
+def _end(e, names=None):
     if not e:
         return None
     n, c = e
+    n = names[n] if names else n
     return n if c == NOCOUNT else f"{n}::{c}"
 
 
@@ -27,12 +37,12 @@ def concretise(s, variant):
     if k == "pos":
         return s["i"]
     if k == "list":
-        return list(s["l"]) if variant == 0 else np.array(s["l"], dtype=int)
+        return list(s["l"]) if variant != 1 else np.array(s["l"], dtype=int)
     if k == "mask":
-        return list(s["m"]) if variant == 0 else np.array(s["m"], dtype=bool)
+        return list(s["m"]) if variant != 1 else np.array(s["m"], dtype=bool)
     if k == "re":
         pats = PATTERNS[frozenset(s["R"])]
-        p = pats[variant % len(pats)]
+        p = pats[variant % len(pats)] if variant < 2 else PATTERNS2[frozenset(s["R"])]
         if s["c"] != NOCOUNT:
             p += f"::{s['c']}"
         if s["o"] > 0:
@@ -41,7 +51,7 @@ def concretise(s, variant):
             p += f"<<{-s['o']}"
         return p
     if k == "span":
-        return slice(_end(s["a"]), _end(s["b"]))
+        return slice(_end(s["a"], NAMES2 if variant == 2 else None), _end(s["b"], NAMES2 if variant == 2 else None))
     if k == "range":
         return slice(None if s["lo"] == NONE else s["lo"], None if s["hi"] == NONE else s["hi"], s["col"])
     if k == "slice":
@@ -51,7 +61,16 @@ def concretise(s, variant):
 
 def run_case(t, sels, exp, variant):
     """-> list of discrepancies"""
-    tab = mk_table(t)
+    names = NAMES2 if variant == 2 else None
+    if names and any(s["k"] == "re" and s["c"] != NOCOUNT and PATTERNS2[frozenset(s["R"])] in (names[x] for x in t) for s in sels):
+        # 'q1::0' where q1 is also the exact name of a row: the string has two documented readings (the row 'name::count' of C07, and the regular
+        # expression with a count); the implementation takes the exact name when there is one.  Not demanded either way (DESIGN 8, ambiguity).
+        return []
+    tab = mk_table(t, names)
+    if names:
+        if len(t):
+            tab["v", names[t[0]]]          # a look-up by name (builds whatever the table keeps for names); changes nothing
+        t = [names[x] for x in t]
     cs = [concretise(s, variant) for s in sels]
     arg = cs[0] if len(cs) == 1 else tuple(cs)
     bad = []
@@ -100,7 +119,7 @@ def worker(job, shard, nshards):
     seen_nontrivial = set()
     for ci in range(shard, len(cases), nshards):
         t, sels, exp = cases[ci]
-        for variant in (0, 1):
+        for variant in (0, 1, 2):
             stats["evaluations"] += 1
             bad = run_case(t, sels, exp, variant)
             if bad:
